@@ -24,7 +24,7 @@ func (g *tgen) condWriteOp(rt *rapid.T, db *model.DB, allowRetOnFail bool) model
 	if len(others) > 0 && (cur == nil || rapid.IntRange(0, 9).Draw(rt, "condFromOther") < 5) {
 		ctxItem = rapid.SampledFrom(others).Draw(rt, "condCtxItem")
 	}
-	c := gen.NewExprCtx(ctxItem, g.o)
+	c := gen.NewExprCtx(ctxItem, g.o).Style(rt)
 	c.IllTyped = 5
 	c.NoNested = rapid.IntRange(0, 3).Draw(rt, "flatCond") > 0
 	var cond model.Expr
@@ -338,7 +338,7 @@ func (g *tgen) failingOp(rt *rapid.T, db *model.DB) (model.Op, string) {
 		if base == nil {
 			base = key
 		}
-		c := gen.NewExprCtx(base, g.o)
+		c := gen.NewExprCtx(base, g.o).Style(rt)
 		cfg := gen.UpdateCfg{MaxActions: 1, KeyAttrs: g.s.KeyAttrs(), IllTyped: 100}
 		bad := c.Update(rt, cfg)
 		u := bad
